@@ -198,20 +198,22 @@ def jobs_for(ctx, exe):
             plan["sampled"] += ["%s ps2 publishers-first: 2 x %d of 120, 6 of 7!" % (v, 4 if v in ("ipc", "local") else 2)]
     else:
         for v in VARIANTS:
-            if v in ("ipc", "local"):
+            # (sized so that the tier ends within about half an hour in this sandbox: the complete enumerations run on
+            # local::Service, the file-system backed variants are sampled)
+            if v == "local":
                 fam(v, 16, 0)
                 plan["exhaustive"].append("%s reqres2 server-side-first: 6 x 720" % v)
             else:
                 fam(v, 4, 60)
                 plan["sampled"].append("%s reqres2 server-side-first: 6 x 60" % v)
-            rnd(v, "reqres2", 1, 8, 250)
-            plan["sampled"].append("%s reqres2: 2000 of 9!" % v)
-            fam(v, 8, 0 if v in ("ipc", "local") else 60, "rrovf")
-            rnd(v, "rrovf", 1, 4, 250)
+            rnd(v, "reqres2", 1, 8, 100)
+            plan["sampled"].append("%s reqres2: 800 of 9!" % v)
+            fam(v, 8, 0 if v == "local" else 60, "rrovf")
+            rnd(v, "rrovf", 1, 4, 100)
             fam(v, 4, 0, "ps2")
-            rnd(v, "ps2", 1, 4, 250)
-            plan["exhaustive"].append("%s ps2 publishers-first: 2 x 120; 1000 of 7!" % v)
-            plan["exhaustive" if v in ("ipc", "local") else "sampled"].append("%s rrovf servers-first: 2 x %s; 1000 of 8!" % (v, "720" if v in ("ipc", "local") else "60"))
+            rnd(v, "ps2", 1, 4, 100)
+            plan["exhaustive"].append("%s ps2 publishers-first: 2 x 120; 400 of 7!" % v)
+            plan["exhaustive" if v == "local" else "sampled"].append("%s rrovf servers-first: 2 x %s; 400 of 8!" % (v, "720" if v == "local" else "60"))
     if not th:
         for v in ("ipc", "local"):
             exh(v, "pubsub", 1, 6)
@@ -233,11 +235,9 @@ def jobs_for(ctx, exe):
             exh(v, "event", 2, 4)
             plan["exhaustive"].append("%s event 2 nodes (720)" % v)
         for p in ("pubsub", "reqres", "blackboard"):
-            exh("ipc", p, 2, 32)
-            plan["exhaustive"].append("ipc %s 2 nodes (40320)" % p)
-            for v in ("local", "ipc_threadsafe", "local_threadsafe"):
-                rnd(v, p, 2, 8, 400)
-                plan["sampled"].append("%s %s 2 nodes: 3200 of 40320" % (v, p))
+            for v in VARIANTS:
+                rnd(v, p, 2, 8, 250)
+                plan["sampled"].append("%s %s 2 nodes: 2000 of 40320" % (v, p))
     return jobs, plan
 
 
